@@ -253,6 +253,9 @@ func (lip6) Run(c Case) Result {
 	tags := map[string]bool{}
 	for _, op := range c.Ops {
 		name, a := n6args(op)
+		if lip6xRun(name, a, op, &res, tags) {
+			continue
+		}
 		switch name {
 		case "nlt":
 			res.Obs = append(res.Obs, fmt.Sprintf("lt=%d", int(layers.IPProtocol(n6atoi(a[0])).LayerType())))
@@ -841,6 +844,7 @@ func (lip6) Gen(rng *rand.Rand, tier string) []Case {
 			add(fmt.Sprintf("ser:%s,%s,%d%d%d,%s", k, n6hex(b), rng.Intn(2), rng.Intn(2), rng.Intn(3), lip6Payload(rng)))
 		}
 	}
+	lip6xGen(rng, scale, add)
 	// the largest extension header: 2048 octets of Pad1, and of one-octet options
 	{
 		b := append([]byte{59, 255}, make([]byte, 2046)...)
